@@ -18,7 +18,7 @@ func init() {
 		Explanation: "Decided: (R1) the supervising actor consults SupervisionStrategy.Supervise exactly once per failure, on its own strategy if set, else the system's; (R2) the one-for-one strategy returns the failing child, the one-for-all strategy the supervisor's children, and the supervision context's accessors return exactly those sets; " +
 			"(R3) every message told while supervising goes to a target, a chained context's target, or the supervisor's parent; (R4) restart / stop / resume / escalate bodies are entered under their own predicate, each does what the directive says, and every decision value enters one of them (unknown ⇒ escalate); " +
 			"(R5) a failure pauses the failing actor's mailbox before its parent is told, and the failure entry is reachable only from the recover block; (R6) no supervision for a failure while handling OnKill, nor OnKilled when the actor is not running or the notice names itself. " +
-			"NOT decided: the run-time effect of each (decision × strategy × failure site) cell.",
+			"(R7) the targets recorded in the supervision context (which later resume broadcasts walk) are exactly the strategy's targets that the supervisor paused. NOT decided: the run-time effect of each (decision × strategy × failure site) cell.",
 		Rules: []Rule{
 			{ID: "C08.R1", Min: 2, Desc: "strategy consulted exactly once; own else system", Fn: c08Consult},
 			{ID: "C08.R2", Min: 4, Desc: "target selection of both strategies and the context accessors", Fn: c08Targets},
@@ -26,6 +26,7 @@ func init() {
 			{ID: "C08.R4", Min: 5, Desc: "dispatch by decision, exhaustive", Fn: c08Dispatch},
 			{ID: "C08.R5", Min: 3, Desc: "failure entry: pause before telling the parent; only from recover", Fn: c08FailureEntry},
 			{ID: "C08.R6", Min: 3, Desc: "no supervision while stopping", Fn: c08NotWhileStopping},
+			{ID: "C08.R7", Min: 2, Desc: "the recorded targets are exactly the targets that were paused", Fn: c08RecordedTargets},
 		},
 	})
 	register(&Property{
@@ -39,6 +40,7 @@ func init() {
 			{ID: "C09.R3", Min: 5, Desc: "resume broadcast along the escalation chain, after the poison message", Fn: c09Broadcast},
 			{ID: "C09.R4", Min: 1, Desc: "every decision takes a branch", Fn: c08Exhaustive},
 			{ID: "C09.R5", Min: 4, Desc: "zombie discipline", Fn: c09Zombie},
+			{ID: "C09.R7", Min: 2, Desc: "everything that was paused is recorded as a target (so the resume broadcast reaches it)", Fn: c08RecordedTargets},
 			{ID: "C09.R6", Min: 7, Desc: "paused mailbox neither spins nor misses the resume (a pending system message — the resume command — always re-arms)", Fn: func(p *Program, r *Report) { c01Release(p, r); c01NoSpin(p, r); c01Resume(p, r) }},
 		},
 	})
@@ -1061,4 +1063,69 @@ func emptyFuncGlobal(p *Program, g *ssa.Global) bool {
 		}
 	}
 	return false
+}
+
+// c08RecordedTargets: pause set == recorded set. The supervisor pauses the strategy's targets and hands the very same value
+// to apply-decision, which is the only writer of the context's target list and stores exactly its parameter.
+func c08RecordedTargets(p *Program, r *Report) {
+	s, _ := supOrFail(p, r)
+	if s == nil {
+		return
+	}
+	// (a) writers of the target list
+	okW, nW := true, 0
+	where := ""
+	var tparam ssa.Value
+	for _, prm := range s.Apply.Params {
+		if types.Identical(prm.Type(), s.Targets.Type()) {
+			tparam = prm
+		}
+	}
+	for _, a := range p.fieldAccesses(map[*types.Var]bool{s.Targets: true}) {
+		if !a.Write || a.Fresh {
+			continue
+		}
+		nW++
+		st, isSt := a.In.(*ssa.Store)
+		if a.Fn != s.Apply || !isSt || tparam == nil || strip(st.Val) != tparam {
+			okW = false
+			where = fnName(a.Fn) + " @ " + p.pos(a.In.Pos())
+		}
+	}
+	r.Check(okW && nW > 0, "target list is written only with apply-decision's targets", s.Apply.Pos(), "every store to the supervision context's target list stores the targets parameter of apply-decision "+where)
+	// (b) the supervisor pauses exactly the value it hands to apply-decision
+	g := p.ig(s.OnSupervise)
+	var applyArg ssa.Value
+	for _, in := range g.Nodes {
+		if c := callOf(in); c != nil && c.StaticCallee() == s.Apply {
+			for i, prm := range s.Apply.Params {
+				if prm == tparam && i < len(c.Args) {
+					applyArg = c.Args[i]
+				}
+			}
+		}
+	}
+	okP, nP := applyArg != nil, 0
+	for _, ts := range p.tellSites(s.OnSupervise) {
+		nP++
+		// recipient = element of the same slice value
+		ld, isU := strip(ts.Recipient).(*ssa.UnOp)
+		if !isU {
+			okP = false
+			continue
+		}
+		ia, isIA := ld.X.(*ssa.IndexAddr)
+		if !isIA || applyArg == nil || strip(ia.X) != strip(applyArg) {
+			okP = false
+		}
+		if b, isC := constBool(ts.System); !isC || !b {
+			okP = false
+		}
+	}
+	pauses := map[int]bool{}
+	for _, ts := range p.tellSites(s.OnSupervise) {
+		pauses[g.Idx[ts.In]] = true
+	}
+	once, why := g.loopExactlyOnce(pauses)
+	r.Check(okP && nP > 0 && once, "the paused set is the set handed to apply-decision", s.OnSupervise.Pos(), "the pause command is told (as a system message, once per element) to the elements of the very slice that apply-decision records as targets "+why)
 }
